@@ -1073,10 +1073,10 @@ Proof.
   intros E x N y Hy. apply E. intros ->. auto.
 Qed.
 
-Lemma set_bases_push s r bs :
+Lemma set_bases_push_shape s r bs :
   allPush s -> ranked (Bs s) -> subs_ok s -> ro_coherent_except s r ->
   r < length s -> (forall b, In b bs -> b < r) ->
-  PInv (set_bases s r bs) /\ length (set_bases s r bs) = length s.
+  exists s4, set_bases s r bs = after_bump s4 r /\ PInv s4 /\ length s4 = length s.
 Proof.
   intros A R S0 C Lr Hbs. rewrite set_bases_push_eq by apply A. cbv zeta.
   destruct (book_spec (rs_bases (get s r)) bs r s) as (O & B2 & B3 & B4).
@@ -1119,11 +1119,20 @@ Proof.
       destruct (Reach_dec (Bs s2) r R2 x) as [Y|N].
       + rewrite <- L2. apply refresh_ro_reaches; auto. lia.
       + apply refresh_ro_keeps; auto. }
-  assert (K : skel_eq s3 (after_bump (upd s3 r bump) r)).
-  { eapply skel_eq_trans; [apply bump_skel|]. apply after_bump_skel.
-    eapply skel_allPush; [apply bump_skel|]. apply P3. }
-  split; [eapply PInv_skel; eauto|].
-  destruct K as ((<- & _) & _). destruct G3 as (<- & _). auto.
+  exists (upd s3 r bump). split; [reflexivity|]. split.
+  - eapply PInv_skel; [apply bump_skel|exact P3].
+  - rewrite upd_length. destruct G3 as (<- & _). auto.
+Qed.
+
+Lemma set_bases_push s r bs :
+  allPush s -> ranked (Bs s) -> subs_ok s -> ro_coherent_except s r ->
+  r < length s -> (forall b, In b bs -> b < r) ->
+  PInv (set_bases s r bs) /\ length (set_bases s r bs) = length s.
+Proof.
+  intros A R S0 C Lr Hbs.
+  destruct (set_bases_push_shape s r bs A R S0 C Lr Hbs) as (s4 & -> & P4 & L4).
+  assert (K : skel_eq s4 (after_bump s4 r)) by (apply after_bump_skel; apply P4).
+  split; [eapply PInv_skel; eauto|]. destruct K as ((<- & _) & _). auto.
 Qed.
 
 (* ---- every operation of a well-formed history keeps the push invariant *)
@@ -1251,3 +1260,800 @@ Proof.
   cbn [wf_hist] in Wf. apply andb_true_iff in Wf. destruct Wf as (Wo & Wf).
   destruct (PInv_step W call s o P Wo) as (P' & L'). apply IH; auto. rewrite L'; auto.
 Qed.
+
+(* ================================================================== Part D: verifying flavour *)
+
+Definition gen_of (s : sys) (i : nat) : nat := generation (rs_reg (get s i)).
+
+Lemma gens_map s l : gens s l = map (gen_of s) l.
+Proof. reflexivity. Qed.
+
+Lemma gens_ext s s' l : (forall i, In i l -> gen_of s i = gen_of s' i) -> gens s l = gens s' l.
+Proof. intros H. rewrite !gens_map. apply map_ext_in; auto. Qed.
+
+Lemma lspec_eqb_eq a : forall b, lspec_eqb a b = true <-> a = b.
+Proof.
+  induction a as [|x a IH]; intros [|y b]; cbn; try (split; congruence).
+  rewrite andb_true_iff, Nat.eqb_eq. unfold lspec_eqb in IH. rewrite IH.
+  split; [intros (-> & ->); auto | intros E; inversion E; auto].
+Qed.
+
+Lemma Forall2_le_refl l : Forall2 le l l.
+Proof. induction l; constructor; auto. Qed.
+
+Lemma gens_mono s s' : (forall i, gen_of s i <= gen_of s' i) ->
+  forall l vg, Forall2 le vg (gens s l) -> Forall2 le vg (gens s' l).
+Proof.
+  intros M. induction l as [|y l IH]; intros vg H; inversion H; subst; constructor; auto.
+  specialize (M y). unfold gen_of in M. lia.
+Qed.
+
+Lemma gens_sandwich s s' : (forall i, gen_of s i <= gen_of s' i) ->
+  forall l vg, Forall2 le vg (gens s l) -> gens s' l = vg ->
+               gens s l = vg /\ forall y, In y l -> gen_of s y = gen_of s' y.
+Proof.
+  intros M. induction l as [|y l IH]; intros vg H <-.
+  - split; auto. intros ? [].
+  - cbn [gens map] in *. inversion H as [|a b la lb Hab Hl]; subst.
+    destruct (IH _ Hl eq_refl) as (E1 & E2).
+    specialize (M y). unfold gen_of in *.
+    assert (generation (rs_reg (get s y)) = generation (rs_reg (get s' y))) by lia.
+    split.
+    + f_equal; auto.
+    + intros z [<-|Hz]; auto.
+Qed.
+
+(* what the lookup object's changed() does to a verifying registry *)
+Lemma lookup_changed_ver b s r : rs_flavour (get s r) = Verifying -> r < length s ->
+  length (lookup_changed b s r) = length s /\
+  (forall i, i <> r -> get (lookup_changed b s r) i = get s i) /\
+  get (lookup_changed b s r) r =
+    mkRS (rs_reg (get s r)) empty_caches (rs_bases (get s r)) (fresh_ro s r) (rs_subs (get s r))
+         (tl (fresh_ro s r)) (gens s (tl (fresh_ro s r))) Verifying.
+Proof.
+  intros F L. unfold lookup_changed. rewrite F. cbn [refresh_ro].
+  set (X0 := mkRS (rs_reg (get s r)) (rs_caches (get s r)) (rs_bases (get s r)) (fresh_ro s r)
+                  (rs_subs (get s r)) (rs_vro (get s r)) (rs_vgen (get s r)) (rs_flavour (get s r))).
+  assert (G0 : get (set s r X0) r = X0) by (apply get_set_same; auto).
+  rewrite G0. cbn [X0 rs_reg rs_bases rs_ro rs_subs].
+  split; [rewrite !set_length; auto|]. split.
+  - intros i N. rewrite !get_set_other; auto.
+  - rewrite get_set_same by (rewrite set_length; auto). f_equal.
+    apply gens_ext. intros i _. unfold gen_of. rewrite get_set.
+    destruct (Nat.eqb i r && Nat.ltb r (length s)) eqn:E; auto.
+    apply andb_true_iff in E. destruct E as (E & _). apply Nat.eqb_eq in E. subst. reflexivity.
+Qed.
+
+(* a registry that is not touched keeps a valid snapshot, provided generations only grow and
+   every registry whose __bases__ changed has a strictly larger generation *)
+Lemma snap_frame s s' x :
+  ranked (Bs s) -> length s <= length s' -> x < length s ->
+  rs_ro (get s' x) = rs_ro (get s x) -> rs_vro (get s' x) = rs_vro (get s x) ->
+  rs_vgen (get s' x) = rs_vgen (get s x) ->
+  (forall i, gen_of s i <= gen_of s' i) ->
+  (forall i, Bs s i <> Bs s' i -> gen_of s i < gen_of s' i) ->
+  Bs s x = Bs s' x ->
+  snap_ok s x -> snap_ok s' x.
+Proof.
+  intros R L Lx E1 E2 E3 M St Bx (V1 & V4 & V2 & V3). unfold snap_ok. rewrite E1, E2, E3.
+  split; auto. split; [intros y Hy; apply V4 in Hy; lia|]. split; [eapply gens_mono; eauto|].
+  intros E. destruct (gens_sandwich s s' M _ _ V2 E) as (E' & Eq). rewrite (V3 E').
+  apply fresh_ro_frame; auto; try lia.
+  intros y Hy. apply (fresh_ro_mem s x y R Lx) in Hy. rewrite <- (V3 E'), V1 in Hy.
+  destruct Hy as [<-|Hy]; auto.
+  destruct (list_eq_dec Nat.eq_dec (Bs s y) (Bs s' y)) as [|N]; auto.
+  apply St in N. apply Eq in Hy. lia.
+Qed.
+
+(* re-taking the snapshot of registry r, in a system that differs from a good one only at r *)
+Lemma resnap b s s4 r :
+  allVer s -> ranked (Bs s) -> (forall x, x < length s -> x <> r -> snap_ok s x) ->
+  r < length s -> length s4 = length s -> (forall i, i <> r -> get s4 i = get s i) ->
+  rs_flavour (get s4 r) = Verifying -> ranked (Bs s4) ->
+  gen_of s r <= gen_of s4 r -> (Bs s r <> Bs s4 r -> gen_of s r < gen_of s4 r) ->
+  VInv (lookup_changed b s4 r) /\ length (lookup_changed b s4 r) = length s.
+Proof.
+  intros Al R Sn Lr L4 O4 F4 R4 Gr St.
+  destruct (lookup_changed_ver b s4 r F4) as (L' & O' & G'); [lia|].
+  set (s' := lookup_changed b s4 r) in *.
+  assert (B' : forall i, Bs s' i = Bs s4 i).
+  { intros i. unfold Bs. destruct (Nat.eq_dec i r) as [->|N]; [rewrite G'; reflexivity|rewrite O'; auto]. }
+  assert (Gn : forall i, gen_of s' i = gen_of s4 i).
+  { intros i. unfold gen_of. destruct (Nat.eq_dec i r) as [->|N]; [rewrite G'; reflexivity|rewrite O'; auto]. }
+  assert (R' : ranked (Bs s')) by (intros y c; rewrite B'; apply R4).
+  assert (Fr : fresh_ro s' r = fresh_ro s4 r) by (apply fresh_ro_ext; auto).
+  split; [|lia]. split; [|split; auto].
+  - intros i Li. destruct (Nat.eq_dec i r) as [->|N]; [rewrite G'; reflexivity|].
+    rewrite O', O4; auto. apply Al. lia.
+  - intros x Lx. destruct (Nat.eq_dec x r) as [->|N].
+    + destruct (fresh_ro_head s4 r R4) as (t & Ht); [lia|].
+      unfold snap_ok. rewrite G'. cbn [rs_ro rs_vro rs_vgen]. rewrite Ht. cbn [tl].
+      split; auto. split; [|split].
+      * intros y Hy. rewrite <- Ht in Hy. apply fresh_ro_mem in Hy; auto; [|lia].
+        apply (Reach_le _ R4) in Hy. lia.
+      * rewrite (gens_ext s' s4 t) by (intros; apply Gn). apply Forall2_le_refl.
+      * intros _. rewrite Fr. auto.
+    + assert (Lx' : x < length s) by lia.
+      apply (snap_frame s s' x); auto; try lia.
+      * rewrite O', O4; auto.
+      * rewrite O', O4; auto.
+      * rewrite O', O4; auto.
+      * intros i. rewrite Gn. destruct (Nat.eq_dec i r) as [->|Ni]; auto.
+        unfold gen_of. rewrite O4; auto.
+      * intros i. rewrite Gn, B'. destruct (Nat.eq_dec i r) as [->|Ni]; auto.
+        unfold Bs. rewrite O4; auto. congruence.
+      * rewrite B'. unfold Bs. rewrite O4; auto.
+Qed.
+
+Lemma refresh_ro_ver f s r : rs_flavour (get s r) = Verifying -> refresh_ro f s r = visit_ro s r.
+Proof.
+  intros F. destruct f; cbn [refresh_ro]; [reflexivity|].
+  assert (E : forall X Y : sys, match rs_flavour (get s r) with Push => X | Verifying => Y end = Y)
+    by (intros; rewrite F; auto).
+  rewrite E. reflexivity.
+Qed.
+
+Lemma after_bump_ver s r : rs_flavour (get s r) = Verifying -> r < length s ->
+  after_bump s r = lookup_changed false s r.
+Proof.
+  intros F L. unfold after_bump. destruct (lookup_changed_ver false s r F L) as (_ & _ & ->). reflexivity.
+Qed.
+
+Lemma set_bases_ver_eq s r bs : rs_flavour (get s r) = Verifying -> r < length s ->
+  set_bases s r bs = lookup_changed false (upd (visit_ro (upd s r (setb bs)) r) r bump) r.
+Proof.
+  intros F L. unfold set_bases. rewrite F. fold (setb bs).
+  change (upd s r (fun y => mkRS (rs_reg y) (rs_caches y) bs (rs_ro y) (rs_subs y) (rs_vro y) (rs_vgen y)
+                                 (rs_flavour y))) with (upd s r (setb bs)).
+  assert (F2 : rs_flavour (get (upd s r (setb bs)) r) = Verifying) by (rewrite get_upd_same; auto).
+  rewrite refresh_ro_ver by auto.
+  apply after_bump_ver.
+  - rewrite get_upd_same by (unfold visit_ro; rewrite !upd_length; auto). cbn.
+    unfold visit_ro. rewrite get_upd_same by (rewrite upd_length; auto). cbn. rewrite get_upd_same; auto.
+  - unfold visit_ro. rewrite !upd_length. auto.
+Qed.
+
+Lemma set_bases_ver s r bs :
+  allVer s -> ranked (Bs s) -> (forall x, x < length s -> x <> r -> snap_ok s x) ->
+  r < length s -> (forall b, In b bs -> b < r) ->
+  VInv (set_bases s r bs) /\ length (set_bases s r bs) = length s.
+Proof.
+  intros Al R Sn Lr Hbs. rewrite set_bases_ver_eq; auto.
+  set (s4 := upd (visit_ro (upd s r (setb bs)) r) r bump).
+  assert (L4 : length s4 = length s) by (unfold s4, visit_ro; rewrite !upd_length; auto).
+  assert (O4 : forall i, i <> r -> get s4 i = get s i).
+  { intros i N. unfold s4, visit_ro. rewrite !get_upd_other; auto. }
+  assert (G4 : get s4 r = bump (mkRS (rs_reg (get s r)) (rs_caches (get s r)) bs
+                                     (fresh_ro (upd s r (setb bs)) r) (rs_subs (get s r)) (rs_vro (get s r))
+                                     (rs_vgen (get s r)) (rs_flavour (get s r)))).
+  { unfold s4, visit_ro. rewrite get_upd_same by (rewrite !upd_length; auto).
+    rewrite get_upd_same by (rewrite upd_length; auto). rewrite get_upd_same by auto. reflexivity. }
+  apply (resnap false s s4 r); auto.
+  - rewrite G4. cbn. auto.
+  - intros y b. unfold Bs. destruct (Nat.eq_dec y r) as [->|N].
+    + rewrite G4. cbn. auto.
+    + rewrite O4 by auto. apply R.
+  - unfold gen_of. rewrite G4. cbn. lia.
+  - intros _. unfold gen_of. rewrite G4. cbn. lia.
+Qed.
+
+(* the storage mutators never lower the generation *)
+Lemma provide_incr_gen W g p : generation (provide_incr W g p) = generation g.
+Proof. reflexivity. Qed.
+Lemma provide_decr_gen W g p k : generation (provide_decr W g p k) = generation g.
+Proof. unfold provide_decr. destruct (Nat.eqb _ 0); reflexivity. Qed.
+
+Lemma unregister_gen W g req p n v : generation g <= generation (unregister W g req p n v).
+Proof.
+  unfold unregister. destruct (aget akey_eqb (adapters g) (map conv req, p, n)) as [old|]; auto.
+  destruct v as [v'|]; [destruct (v_is old v'); auto|]; cbn [changed generation];
+    rewrite provide_decr_gen; cbn; lia.
+Qed.
+
+Lemma register_gen W g req p n v : generation g <= generation (register W g req p n v).
+Proof.
+  unfold register. destruct v as [v'|]; [|apply unregister_gen].
+  destruct (aget akey_eqb (adapters g) (map conv req, p, n)) as [old|]; [destruct (v_is old v'); auto|];
+    cbn; lia.
+Qed.
+
+Lemma subscribe_gen W g req p v : generation g <= generation (subscribe W g req p v).
+Proof. unfold subscribe. destruct p; cbn; lia. Qed.
+
+Lemma unsubscribe_gen W g req p v : generation g <= generation (unsubscribe W g req p v).
+Proof.
+  unfold unsubscribe. destruct (sub_leaf g (map conv req, p)) as [|a l]; auto.
+  match goal with |- context [if ?c then _ else _] => destruct c end; auto.
+  destruct p; cbn [changed generation]; try rewrite provide_decr_gen; cbn; lia.
+Qed.
+
+Lemma mutate_ver s r f : VInv s -> r < length s -> (forall g, generation g <= generation (f g)) ->
+  VInv (mutate s r f) /\ length (mutate s r f) = length s.
+Proof.
+  intros (Al & R & Sn) Lr Mf. unfold mutate.
+  destruct (Nat.eqb (generation (f (rs_reg (get s r)))) (generation (rs_reg (get s r)))); [split; auto; split; auto|].
+  set (s4 := set s r _).
+  assert (L4 : length s4 = length s) by (unfold s4; rewrite set_length; auto).
+  assert (O4 : forall i, i <> r -> get s4 i = get s i) by (intros; unfold s4; rewrite get_set_other; auto).
+  assert (G4 : get s4 r = mkRS (f (rs_reg (get s r))) (rs_caches (get s r)) (rs_bases (get s r)) (rs_ro (get s r))
+                               (rs_subs (get s r)) (rs_vro (get s r)) (rs_vgen (get s r)) (rs_flavour (get s r)))
+    by (unfold s4; rewrite get_set_same; auto).
+  assert (F4 : rs_flavour (get s4 r) = Verifying) by (rewrite G4; cbn; auto).
+  rewrite after_bump_ver; auto; try lia.
+  assert (B4 : forall i, Bs s4 i = Bs s i).
+  { intros i. unfold Bs. destruct (Nat.eq_dec i r) as [->|N]; [rewrite G4; reflexivity|rewrite O4; auto]. }
+  apply (resnap false s s4 r); auto.
+  - intros y b. rewrite B4. apply R.
+  - unfold gen_of. rewrite G4. cbn. apply Mf.
+  - rewrite B4. congruence.
+Qed.
+
+Lemma verify_ver s r : VInv s -> r < length s ->
+  VInv (verify s r) /\ length (verify s r) = length s /\
+  rs_ro (get (verify s r) r) = fresh_ro (verify s r) r /\
+  (forall i, rs_reg (get (verify s r) i) = rs_reg (get s i)) /\
+  (forall i, Bs (verify s r) i = Bs s i) /\
+  (forall i, i <> r -> get (verify s r) i = get s i) /\
+  (gens s (rs_vro (get s r)) <> rs_vgen (get s r) -> rs_caches (get (verify s r) r) = empty_caches) /\
+  (gens s (rs_vro (get s r)) = rs_vgen (get s r) -> verify s r = s).
+Proof.
+  intros V Lr. pose proof V as (Al & R & Sn). unfold verify. rewrite (Al r Lr).
+  destruct (lspec_eqb (gens s (rs_vro (get s r))) (rs_vgen (get s r))) eqn:E.
+  - apply lspec_eqb_eq in E. split; [auto|]. split; [auto|]. split; [apply Sn; auto|].
+    split; [auto|]. split; [auto|]. split; [auto|]. split; [intros N; congruence|auto].
+  - assert (NE : gens s (rs_vro (get s r)) <> rs_vgen (get s r)).
+    { intros H. apply lspec_eqb_eq in H. congruence. }
+    destruct (lookup_changed_ver true s r (Al r Lr) Lr) as (L' & O' & G').
+    destruct (resnap true s s r) as (V' & _); auto.
+    { congruence. }
+    split; auto. split; auto.
+    assert (B' : forall i, Bs (lookup_changed true s r) i = Bs s i).
+    { intros i. unfold Bs. destruct (Nat.eq_dec i r) as [->|N]; [rewrite G'; reflexivity|rewrite O'; auto]. }
+    split; [|split; [|split; [|split; [|split]]]]; auto.
+    + rewrite G'. cbn. apply fresh_ro_ext; auto.
+    + intros i. destruct (Nat.eq_dec i r) as [->|N]; [rewrite G'; reflexivity|rewrite O'; auto].
+    + intros _. rewrite G'. reflexivity.
+    + congruence.
+Qed.
+
+Lemma set_caches_ver s r c : VInv s -> VInv (upd s r (fun x => set_caches x c)).
+Proof.
+  intros (Al & R & Sn). set (s' := upd s r (fun x => set_caches x c)).
+  assert (F : forall i, rs_reg (get s' i) = rs_reg (get s i) /\ rs_bases (get s' i) = rs_bases (get s i) /\
+                        rs_ro (get s' i) = rs_ro (get s i) /\ rs_vro (get s' i) = rs_vro (get s i) /\
+                        rs_vgen (get s' i) = rs_vgen (get s i) /\ rs_flavour (get s' i) = rs_flavour (get s i)).
+  { intros i. unfold s'. rewrite get_upd. destruct (Nat.eqb i r && Nat.ltb r (length s)) eqn:E;
+      [|repeat split; reflexivity].
+    apply andb_true_iff in E. destruct E as (E & _). apply Nat.eqb_eq in E. subst. cbn.
+    repeat split; reflexivity. }
+  assert (L : length s' = length s) by apply upd_length.
+  split; [|split].
+  - intros i Li. destruct (F i) as (_ & _ & _ & _ & _ & ->). apply Al. lia.
+  - intros y b. unfold Bs. destruct (F y) as (_ & -> & _). apply R.
+  - intros x Lx. rewrite L in Lx. apply (snap_frame s s' x); auto; try lia; try apply F.
+    + intros i. unfold gen_of. destruct (F i) as (-> & _). auto.
+    + intros i. unfold Bs. destruct (F i) as (_ & -> & _). congruence.
+    + unfold Bs. destruct (F x) as (_ & -> & _). auto.
+Qed.
+
+Lemma with_lookup_ver W {A} s r (f : _ -> _ -> _ -> caches -> caches * A) :
+  VInv s -> r < length s ->
+  VInv (fst (with_lookup W s r f)) /\ length (fst (with_lookup W s r f)) = length s.
+Proof.
+  intros V Lr. destruct (with_lookup_fst W s r f) as (c' & ->).
+  destruct (verify_ver s r V Lr) as (V' & L' & _). split; [apply set_caches_ver; auto|].
+  rewrite upd_length; auto.
+Qed.
+
+Lemma new_reg_ver s bs : VInv s -> (forall b, In b bs -> b < length s) ->
+  VInv (new_reg s Verifying bs) /\ length (new_reg s Verifying bs) = S (length s).
+Proof.
+  intros (Al & R & Sn) Hbs. unfold new_reg.
+  set (s0 := s ++ [mkRS empty_reg empty_caches [] [] [] [] [] Verifying]).
+  assert (L0 : length s0 = S (length s)) by (unfold s0; rewrite app_length; cbn; lia).
+  assert (G : forall i, get s0 i = if Nat.ltb i (length s) then get s i
+                                   else if Nat.eqb i (length s)
+                                        then mkRS empty_reg empty_caches [] [] [] [] [] Verifying
+                                        else dummy_rs) by (intros; apply get_app_cases).
+  assert (G1 : forall i, i < length s -> get s0 i = get s i).
+  { intros i Li. rewrite G. replace (Nat.ltb i (length s)) with true; auto. symmetry. apply Nat.ltb_lt; auto. }
+  assert (B0 : forall i, Bs s0 i = Bs s i).
+  { intros i. unfold Bs. rewrite G. destruct (Nat.ltb i (length s)) eqn:Li; auto.
+    apply Nat.ltb_ge in Li. rewrite (get_oob s i) by auto. destruct (Nat.eqb i (length s)); reflexivity. }
+  destruct (set_bases_ver s0 (length s) bs) as (V & L); auto; try lia.
+  - intros i Li. rewrite G. destruct (Nat.ltb i (length s)) eqn:E.
+    + apply Al. apply Nat.ltb_lt; auto.
+    + apply Nat.ltb_ge in E. replace (Nat.eqb i (length s)) with true; auto.
+      symmetry. apply Nat.eqb_eq. lia.
+  - apply app_new_ranked; auto.
+  - intros x Lx N. assert (Lx' : x < length s) by lia.
+    apply (snap_frame s s0 x); auto; try lia; try (rewrite G1; auto; fail).
+    + intros i. unfold gen_of. rewrite G. destruct (Nat.ltb i (length s)) eqn:Li; auto.
+      apply Nat.ltb_ge in Li. rewrite (get_oob s i) by auto. cbn. lia.
+    + intros i. rewrite B0. congruence.
+  - split; auto. lia.
+Qed.
+
+Lemma VInv_step W call s o : VInv s -> wf_op Verifying (length s) o = true ->
+  VInv (fst (step W call s o)) /\ length (fst (step W call s o)) = n_after (length s) o.
+Proof.
+  intros V Wf.
+  destruct o; cbn [step wf_op n_after fst] in *; try rewrite fst_let;
+    try (apply Nat.ltb_lt in Wf);
+    try (apply with_lookup_ver; auto; fail);
+    try (split; auto; fail);
+    try discriminate.
+  - apply andb_true_iff in Wf. destruct Wf as (Fl & Hb). destruct fl; try discriminate.
+    apply new_reg_ver; auto. apply forallb_ltb; auto.
+  - apply andb_true_iff in Wf. destruct Wf as (Lr & Hb). apply Nat.ltb_lt in Lr.
+    destruct V as (? & ? & Sn). apply set_bases_ver; auto. apply forallb_ltb; auto.
+  - apply mutate_ver; auto. intros; apply register_gen.
+  - apply mutate_ver; auto. intros; apply unregister_gen.
+  - apply mutate_ver; auto. intros; apply subscribe_gen.
+  - apply mutate_ver; auto. intros; apply unsubscribe_gen.
+Qed.
+
+Lemma VInv_nil : VInv [].
+Proof.
+  split; [|split].
+  - intros i H. cbn in H. lia.
+  - intros y b. unfold Bs, get. destruct y; cbn; tauto.
+  - intros r H. cbn in H. lia.
+Qed.
+
+Lemma VInv_final W call : forall ops s, VInv s -> wf_hist Verifying (length s) ops = true ->
+  VInv (final W call s ops).
+Proof.
+  induction ops as [|o ops IH]; intros s P Wf; cbn [final fold_left]; auto.
+  cbn [wf_hist] in Wf. apply andb_true_iff in Wf. destruct Wf as (Wo & Wf).
+  destruct (VInv_step W call s o P Wo) as (P' & L'). apply IH; auto. rewrite L'; auto.
+Qed.
+
+Lemma VInv_lookup_changed b s r : VInv s -> r < length s -> VInv (lookup_changed b s r).
+Proof.
+  intros (Al & R & Sn) Lr. destruct (resnap b s s r) as (V & _); auto. congruence.
+Qed.
+
+(* ================================================================== Part E: what lookups answer *)
+
+Definition Inv (fl : flavour) (s : sys) : Prop := match fl with Push => PInv s | Verifying => VInv s end.
+
+Lemma Inv_nil fl : Inv fl [].
+Proof. destruct fl; [apply PInv_nil|apply VInv_nil]. Qed.
+
+Lemma Inv_step W call fl s o : Inv fl s -> wf_op fl (length s) o = true ->
+  Inv fl (fst (step W call s o)) /\ length (fst (step W call s o)) = n_after (length s) o.
+Proof. destruct fl; [apply PInv_step|apply VInv_step]. Qed.
+
+Lemma Inv_final W call fl : forall ops s, Inv fl s -> wf_hist fl (length s) ops = true ->
+  Inv fl (final W call s ops).
+Proof. destruct fl; [apply PInv_final|apply VInv_final]. Qed.
+
+Lemma Inv_ranked fl s : Inv fl s -> ranked (Bs s).
+Proof. destruct fl; intros H; apply H. Qed.
+
+Lemma snd_let {A B C} (x : A * B) (g : B -> C) : snd (let '(s', a) := x in (s', g a)) = g (snd x).
+Proof. destruct x; reflexivity. Qed.
+
+Lemma with_lookup_snd W {A} s r (f : _ -> _ -> _ -> caches -> caches * A) :
+  snd (with_lookup W s r f) =
+  snd (f (uncached_lookup W (ro_regs (verify s r) r)) (uncached_lookupAll W (ro_regs (verify s r) r))
+         (uncached_subscriptions W (ro_regs (verify s r) r)) (rs_caches (get (verify s r) r))).
+Proof.
+  unfold with_lookup. cbv zeta.
+  destruct (f (uncached_lookup W (ro_regs (verify s r) r)) (uncached_lookupAll W (ro_regs (verify s r) r))
+              (uncached_subscriptions W (ro_regs (verify s r) r)) (rs_caches (get (verify s r) r))) as [c' a].
+  reflexivity.
+Qed.
+
+(* (the registries a lookup from r iterates, once _verify has run) = the current chain *)
+Lemma chain_after_verify fl s r : Inv fl s -> r < length s -> ro_regs (verify s r) r = chain_regs s r.
+Proof.
+  intros I Lr. unfold ro_regs, chain_regs. destruct fl.
+  - destruct I as (Al & _ & _ & C). rewrite verify_push by apply Al. rewrite C; auto.
+  - destruct (verify_ver s r I Lr) as (_ & L' & Ro & Rg & B' & _). rewrite Ro.
+    rewrite (fresh_ro_ext (verify s r) s r L' B'). apply map_ext. intros i. apply Rg.
+Qed.
+
+Lemma verify_cache_cases fl s r : Inv fl s -> r < length s ->
+  rs_caches (get (verify s r) r) = empty_caches \/ verify s r = s.
+Proof.
+  intros I Lr. destruct fl.
+  - right. apply verify_push. apply I.
+  - destruct (verify_ver s r I Lr) as (_ & _ & _ & _ & _ & _ & Ne & Eq).
+    destruct (list_eq_dec Nat.eq_dec (gens s (rs_vro (get s r))) (rs_vgen (get s r))); auto.
+Qed.
+
+(* ---- the cache layer on a miss *)
+Lemma lookup_cold ul c req p n : aget cache_key_eqb (c_cache c) (p, n, ckey_of req) = None ->
+  snd (lookup ul c req p (NStr n)) = res_of (ul req p n).
+Proof. intros H. unfold lookup. rewrite H. cbn. destruct (ul req p n); reflexivity. Qed.
+
+Lemma lookupAll_cold ua c req p : aget mkey_eqb (c_mcache c) (p, req) = None ->
+  snd (lookupAll ua c req p) = ua req p.
+Proof. intros H. unfold lookupAll. rewrite H. reflexivity. Qed.
+
+Lemma subscriptions_cold us c req p : aget sckey_eqb (c_scache c) (p, req) = None ->
+  snd (subscriptions us c req p) = us req p.
+Proof. intros H. unfold subscriptions. rewrite H. reflexivity. Qed.
+
+Section Answers.
+  Variable W : world.
+  Variable call : value -> list nat -> option nat.
+
+  Lemma step_QLookup s r req p n :
+    snd (step W call s (QLookup r req p n)) =
+    enc_res_value (snd (lookup (uncached_lookup W (ro_regs (verify s r) r)) (rs_caches (get (verify s r) r)) req p n)).
+  Proof. cbn [step]. rewrite snd_let, with_lookup_snd. reflexivity. Qed.
+
+  Lemma step_QLookupAll s r req p :
+    snd (step W call s (QLookupAll r req p)) =
+    enc_pairs (snd (lookupAll (uncached_lookupAll W (ro_regs (verify s r) r)) (rs_caches (get (verify s r) r)) req p)).
+  Proof. cbn [step]. rewrite snd_let, with_lookup_snd. reflexivity. Qed.
+
+  Lemma step_QSubscriptions s r req p :
+    snd (step W call s (QSubscriptions r req p)) =
+    map vid (snd (subscriptions (uncached_subscriptions W (ro_regs (verify s r) r))
+                                (rs_caches (get (verify s r) r)) req p)).
+  Proof. cbn [step]. rewrite snd_let, with_lookup_snd. reflexivity. Qed.
+
+  (* a cold cache entry stays cold across _verify *)
+  Lemma cold_after_verify fl s r (P : caches -> Prop) : Inv fl s -> r < length s ->
+    P empty_caches -> P (rs_caches (get s r)) -> P (rs_caches (get (verify s r) r)).
+  Proof.
+    intros I Lr P0 Ps. destruct (verify_cache_cases fl s r I Lr) as [->| ->]; auto.
+  Qed.
+
+  Lemma lookup_current_chain fl s r req p n : Inv fl s -> r < length s ->
+    aget cache_key_eqb (c_cache (rs_caches (get s r))) (p, n, ckey_of req) = None ->
+    snd (step W call s (QLookup r req p (NStr n))) =
+    enc_res_value (res_of (uncached_lookup W (chain_regs s r) req p n)).
+  Proof.
+    intros I Lr Cold. rewrite step_QLookup, (chain_after_verify fl s r I Lr), lookup_cold; auto.
+    apply (cold_after_verify fl s r (fun c => aget cache_key_eqb (c_cache c) (p, n, ckey_of req) = None)); auto.
+  Qed.
+
+  Lemma lookupAll_current_chain fl s r req p : Inv fl s -> r < length s ->
+    aget mkey_eqb (c_mcache (rs_caches (get s r))) (p, req) = None ->
+    snd (step W call s (QLookupAll r req p)) = enc_pairs (uncached_lookupAll W (chain_regs s r) req p).
+  Proof.
+    intros I Lr Cold. rewrite step_QLookupAll, (chain_after_verify fl s r I Lr), lookupAll_cold; auto.
+    apply (cold_after_verify fl s r (fun c => aget mkey_eqb (c_mcache c) (p, req) = None)); auto.
+  Qed.
+
+  Lemma subscriptions_current_chain fl s r req p : Inv fl s -> r < length s ->
+    aget sckey_eqb (c_scache (rs_caches (get s r))) (p, req) = None ->
+    snd (step W call s (QSubscriptions r req p)) = map vid (uncached_subscriptions W (chain_regs s r) req p).
+  Proof.
+    intros I Lr Cold. rewrite step_QSubscriptions, (chain_after_verify fl s r I Lr), subscriptions_cold; auto.
+    apply (cold_after_verify fl s r (fun c => aget sckey_eqb (c_scache c) (p, req) = None)); auto.
+  Qed.
+
+  (* with empty caches all three entry points are the uncached computations over the chain *)
+  Lemma answers_when_cleared fl s r : Inv fl s -> r < length s ->
+    rs_caches (get (verify s r) r) = empty_caches ->
+    (forall req p n, snd (step W call s (QLookup r req p (NStr n))) =
+                     enc_res_value (res_of (uncached_lookup W (chain_regs s r) req p n))) /\
+    (forall req p, snd (step W call s (QLookupAll r req p)) =
+                   enc_pairs (uncached_lookupAll W (chain_regs s r) req p)) /\
+    (forall req p, snd (step W call s (QSubscriptions r req p)) =
+                   map vid (uncached_subscriptions W (chain_regs s r) req p)).
+  Proof.
+    intros I Lr E. split; [|split]; intros.
+    - rewrite step_QLookup, (chain_after_verify fl s r I Lr), E, lookup_cold; auto.
+    - rewrite step_QLookupAll, (chain_after_verify fl s r I Lr), E, lookupAll_cold; auto.
+    - rewrite step_QSubscriptions, (chain_after_verify fl s r I Lr), E, subscriptions_cold; auto.
+  Qed.
+End Answers.
+
+(* ---- right after a change at m, the caches of every registry below m are (or get) emptied *)
+Lemma Reach_first B B' m : (forall y, y <> m -> B y = B' y) -> forall x, Reach B x m -> Reach B' x m.
+Proof.
+  intros E x H. remember m as z eqn:Ez. induction H as [|x b y Hb Hr IH]; [apply Reach_refl|]. subst y.
+  destruct (Nat.eq_dec x m) as [->|N]; [apply Reach_refl|].
+  rewrite (E x N) in Hb. eapply Reach_step; eauto.
+Qed.
+
+Lemma push_cleared s4 m : PInv s4 -> m < length s4 ->
+  forall r, Reach (Bs (after_bump s4 m)) r m ->
+            rs_caches (get (verify (after_bump s4 m) r) r) = empty_caches.
+Proof.
+  intros (Al & R & S0 & _) Lm r Rr.
+  pose proof (after_bump_skel s4 m Al) as K.
+  rewrite verify_push by (apply (skel_allPush _ _ K Al)).
+  apply after_bump_empties; auto.
+  apply (Reach_ext (Bs (after_bump s4 m)) (Bs s4)); auto.
+  intros i. symmetry. apply (graph_eq_Bs _ _ (proj1 K)).
+Qed.
+
+Lemma ver_cleared s0 s m : VInv s0 -> VInv s -> length s = length s0 -> m < length s0 ->
+  (forall i, i <> m -> get s i = get s0 i) -> gen_of s0 m < gen_of s m ->
+  rs_caches (get s m) = empty_caches ->
+  forall r, r < length s -> Reach (Bs s) r m -> rs_caches (get (verify s r) r) = empty_caches.
+Proof.
+  intros V0 V L Lm O G Cm r Lr Rr.
+  destruct (Nat.eq_dec r m) as [->|N].
+  - destruct (verify_cache_cases Verifying s m V Lr) as [E|E]; auto. rewrite E. auto.
+  - destruct (verify_ver s r V Lr) as (_ & _ & _ & _ & _ & _ & Ne & _). apply Ne. intros E.
+    destruct V0 as (Al0 & R0 & Sn0). destruct (Sn0 r) as (V1 & V4 & V2 & V3); [lia|].
+    rewrite (O r N) in E.
+    assert (M : forall i, gen_of s0 i <= gen_of s i).
+    { intros i. destruct (Nat.eq_dec i m) as [->|Ni]; [lia|]. unfold gen_of. rewrite O; auto. }
+    destruct (gens_sandwich s0 s M _ _ V2 E) as (E0 & Eq).
+    assert (Rr0 : Reach (Bs s0) r m).
+    { apply (Reach_first (Bs s) (Bs s0) m); auto. intros y Ny. unfold Bs. rewrite O; auto. }
+    apply (fresh_ro_mem s0 r m R0) in Rr0; [|lia]. rewrite <- (V3 E0), V1 in Rr0.
+    destruct Rr0 as [?|Hm]; [congruence|]. apply Eq in Hm. lia.
+Qed.
+
+Lemma set_bases_ver_shape s r bs : rs_flavour (get s r) = Verifying -> r < length s ->
+  (forall i, i <> r -> get (set_bases s r bs) i = get s i) /\
+  gen_of (set_bases s r bs) r = S (gen_of s r) /\
+  rs_caches (get (set_bases s r bs) r) = empty_caches.
+Proof.
+  intros F Lr. rewrite set_bases_ver_eq; auto.
+  set (s4 := upd (visit_ro (upd s r (setb bs)) r) r bump).
+  assert (L4 : length s4 = length s) by (unfold s4, visit_ro; rewrite !upd_length; auto).
+  assert (G4 : get s4 r = bump (mkRS (rs_reg (get s r)) (rs_caches (get s r)) bs
+                                     (fresh_ro (upd s r (setb bs)) r) (rs_subs (get s r)) (rs_vro (get s r))
+                                     (rs_vgen (get s r)) (rs_flavour (get s r)))).
+  { unfold s4, visit_ro. rewrite get_upd_same by (rewrite !upd_length; auto).
+    rewrite get_upd_same by (rewrite upd_length; auto). rewrite get_upd_same by auto. reflexivity. }
+  destruct (lookup_changed_ver false s4 r) as (_ & O' & G'); [rewrite G4; cbn; auto|lia|].
+  split; [|split].
+  - intros i N. rewrite O' by auto. unfold s4, visit_ro. rewrite !get_upd_other; auto.
+  - unfold gen_of. rewrite G', G4. reflexivity.
+  - rewrite G'. reflexivity.
+Qed.
+
+Lemma mutate_ver_shape s r f : rs_flavour (get s r) = Verifying -> r < length s ->
+  generation (f (rs_reg (get s r))) <> generation (rs_reg (get s r)) ->
+  (forall i, i <> r -> get (mutate s r f) i = get s i) /\
+  gen_of (mutate s r f) r = generation (f (rs_reg (get s r))) /\
+  rs_caches (get (mutate s r f) r) = empty_caches.
+Proof.
+  intros F Lr Ng. unfold mutate. apply Nat.eqb_neq in Ng. rewrite Ng.
+  set (s4 := set s r _).
+  assert (G4 : get s4 r = mkRS (f (rs_reg (get s r))) (rs_caches (get s r)) (rs_bases (get s r)) (rs_ro (get s r))
+                               (rs_subs (get s r)) (rs_vro (get s r)) (rs_vgen (get s r)) (rs_flavour (get s r)))
+    by (unfold s4; rewrite get_set_same; auto).
+  assert (L4 : length s4 = length s) by (unfold s4; rewrite set_length; auto).
+  assert (F4 : rs_flavour (get s4 r) = Verifying) by (rewrite G4; cbn; auto).
+  rewrite after_bump_ver; auto; try lia.
+  destruct (lookup_changed_ver false s4 r F4) as (_ & O' & G'); [lia|].
+  split; [|split].
+  - intros i N. rewrite O' by auto. unfold s4. rewrite get_set_other; auto.
+  - unfold gen_of. rewrite G', G4. reflexivity.
+  - rewrite G'. reflexivity.
+Qed.
+
+Lemma mutate_push_shape s r f : PInv s -> r < length s ->
+  generation (f (rs_reg (get s r))) <> generation (rs_reg (get s r)) ->
+  exists s4, mutate s r f = after_bump s4 r /\ PInv s4 /\ length s4 = length s.
+Proof.
+  intros P Lr Ng. unfold mutate. apply Nat.eqb_neq in Ng. rewrite Ng.
+  eexists. split; [reflexivity|]. split.
+  - eapply PInv_skel; [|exact P]. apply (set_reg_skel s r (f (rs_reg (get s r)))).
+  - apply set_length.
+Qed.
+
+Section Cleared.
+  Variable W : world.
+  Variable call : value -> list nat -> option nat.
+
+  Lemma mutate_cleared fl s0 m f : Inv fl s0 -> m < length s0 ->
+    (forall g, generation g <= generation (f g)) ->
+    changed_gen s0 m f = Some m ->
+    forall r, r < length (mutate s0 m f) -> Reach (Bs (mutate s0 m f)) r m ->
+              rs_caches (get (verify (mutate s0 m f) r) r) = empty_caches.
+  Proof.
+    intros I Lm Mf Ch. unfold changed_gen in Ch.
+    destruct (Nat.eqb (generation (f (rs_reg (get s0 m)))) (generation (rs_reg (get s0 m)))) eqn:E;
+      [discriminate|]. apply Nat.eqb_neq in E. destruct fl.
+    - destruct (mutate_push_shape s0 m f I Lm E) as (s4 & -> & P4 & L4). intros r _.
+      apply push_cleared; auto. lia.
+    - pose proof I as (Al & _). destruct (mutate_ver s0 m f I Lm Mf) as (V' & L').
+      destruct (mutate_ver_shape s0 m f (Al m Lm) Lm E) as (O & G & Cm).
+      apply (ver_cleared s0 (mutate s0 m f) m); auto.
+      rewrite G. specialize (Mf (rs_reg (get s0 m))). unfold gen_of. lia.
+  Qed.
+
+  Lemma cleared_after_change fl s0 o m : Inv fl s0 -> wf_op fl (length s0) o = true ->
+    bump_target W s0 o = Some m ->
+    forall r, r < length (fst (step W call s0 o)) -> Reach (Bs (fst (step W call s0 o))) r m ->
+              rs_caches (get (verify (fst (step W call s0 o)) r) r) = empty_caches.
+  Proof.
+    intros I Wf Bt.
+    destruct o; cbn [bump_target] in Bt; try discriminate; cbn [step fst wf_op] in *.
+    - (* __bases__ assignment *)
+      inversion Bt; subst r. apply andb_true_iff in Wf. destruct Wf as (Lm & Hb).
+      apply Nat.ltb_lt in Lm. pose proof (forallb_ltb _ _ Hb) as Hbs. destruct fl.
+      + destruct I as (Al & R & S0 & C).
+        destruct (set_bases_push_shape s0 m bs) as (s4 & -> & P4 & L4); auto.
+        { intros x Lx _. apply C; auto. }
+        intros r _. apply push_cleared; auto. lia.
+      + pose proof I as (Al & R & Sn).
+        destruct (set_bases_ver s0 m bs) as (V' & L'); auto.
+        destruct (set_bases_ver_shape s0 m bs (Al m Lm) Lm) as (O & G & Cm).
+        apply (ver_cleared s0 (set_bases s0 m bs) m); auto. lia.
+    - apply Nat.ltb_lt in Wf. pose proof Bt as Bt'. unfold changed_gen in Bt'.
+      destruct (Nat.eqb _ _) in Bt'; inversion Bt'; subst r.
+      apply (mutate_cleared fl s0 m (fun g => register W g req p n v)); auto. intros; apply register_gen.
+    - apply Nat.ltb_lt in Wf. pose proof Bt as Bt'. unfold changed_gen in Bt'.
+      destruct (Nat.eqb _ _) in Bt'; inversion Bt'; subst r.
+      apply (mutate_cleared fl s0 m (fun g => unregister W g req p n v)); auto. intros; apply unregister_gen.
+    - apply Nat.ltb_lt in Wf. pose proof Bt as Bt'. unfold changed_gen in Bt'.
+      destruct (Nat.eqb _ _) in Bt'; inversion Bt'; subst r.
+      apply (mutate_cleared fl s0 m (fun g => subscribe W g req p v)); auto. intros; apply subscribe_gen.
+    - apply Nat.ltb_lt in Wf. pose proof Bt as Bt'. unfold changed_gen in Bt'.
+      destruct (Nat.eqb _ _) in Bt'; inversion Bt'; subst r.
+      apply (mutate_cleared fl s0 m (fun g => unsubscribe W g req p v)); auto. intros; apply unsubscribe_gen.
+  Qed.
+
+  (* the answers right after a change at m, from any registry below m (warm caches or not) *)
+  Lemma answers_after_change fl s0 o m : Inv fl s0 -> wf_op fl (length s0) o = true ->
+    bump_target W s0 o = Some m ->
+    forall r, r < length (fst (step W call s0 o)) -> Reach (Bs (fst (step W call s0 o))) r m ->
+    (forall req p n, snd (step W call (fst (step W call s0 o)) (QLookup r req p (NStr n))) =
+                     enc_res_value (res_of (uncached_lookup W (chain_regs (fst (step W call s0 o)) r) req p n))) /\
+    (forall req p, snd (step W call (fst (step W call s0 o)) (QLookupAll r req p)) =
+                   enc_pairs (uncached_lookupAll W (chain_regs (fst (step W call s0 o)) r) req p)) /\
+    (forall req p, snd (step W call (fst (step W call s0 o)) (QSubscriptions r req p)) =
+                   map vid (uncached_subscriptions W (chain_regs (fst (step W call s0 o)) r) req p)).
+  Proof.
+    intros I Wf Bt r Lr Rr. destruct (Inv_step W call fl s0 o I Wf) as (I' & _).
+    apply (answers_when_cleared W call fl); auto.
+    apply (cleared_after_change fl s0 o m); auto.
+  Qed.
+End Cleared.
+
+(* ================================================================== the code before the fix
+   (for the Examples of Properties/C06.v only): _setBases recomputed ``ro`` of the registry whose
+   __bases__ was assigned and of nobody else — no recursion into the sub-registries. *)
+Definition set_bases_old (s : sys) (r : nat) (bs : list nat) : sys :=
+  match rs_flavour (get s r) with
+  | Push =>
+      let s2 := upd (book (rs_bases (get s r)) s r bs) r (setb bs) in
+      after_bump (upd (refresh_ro 0 s2 r) r bump) r
+  | Verifying => set_bases s r bs
+  end.
+
+Definition step_old (W : world) (call : value -> list nat -> option nat) (s : sys) (o : rop)
+  : sys * list nat :=
+  match o with
+  | OSetRegBases r bs => (set_bases_old s r bs, [])
+  | _ => step W call s o
+  end.
+
+Fixpoint run_old (W : world) (call : value -> list nat -> option nat) (s : sys) (ops : list rop)
+  : list (list nat) :=
+  match ops with
+  | [] => []
+  | o :: ops' => let '(s', a) := step_old W call s o in a :: run_old W call s' ops'
+  end.
+
+Definition final_old (W : world) (call : value -> list nat -> option nat) (s : sys) (ops : list rop) : sys :=
+  fold_left (fun s o => fst (step_old W call s o)) ops s.
+
+(* ================================================================== statements over histories
+   (quoted verbatim by Properties/C06.v) *)
+Section Hist.
+  Variable W : world.
+  Variable call : value -> list nat -> option nat.
+  Notation fin ops := (final W call [] ops).
+
+  Lemma final_app s ops o : final W call s (ops ++ [o]) = fst (step W call (final W call s ops) o).
+  Proof. unfold final. rewrite fold_left_app. reflexivity. Qed.
+
+  Lemma wf_hist_app fl : forall ops s o, Inv fl s -> wf_hist fl (length s) (ops ++ [o]) = true ->
+    Inv fl (final W call s ops) /\ wf_op fl (length (final W call s ops)) o = true.
+  Proof.
+    induction ops as [|a ops IH]; intros s o I H; cbn [app wf_hist final fold_left] in *.
+    - apply andb_true_iff in H. destruct H; auto.
+    - apply andb_true_iff in H. destruct H as (Wa & H).
+      destruct (Inv_step W call fl s a I Wa) as (I' & L'). apply IH; auto. rewrite L'; auto.
+  Qed.
+
+  Lemma hist_Inv fl ops : wf_hist fl 0 ops = true -> Inv fl (fin ops).
+  Proof. intros H. apply Inv_final; auto. apply Inv_nil. Qed.
+
+  Lemma push_ro_coherent_hist ops : wf_hist Push 0 ops = true ->
+    forall r, r < length (fin ops) -> rs_ro (get (fin ops) r) = fresh_ro (fin ops) r.
+  Proof. intros H. apply (hist_Inv Push ops H). Qed.
+
+  Lemma push_subregistries_mirror_bases_hist ops : wf_hist Push 0 ops = true ->
+    forall r b, In b (rs_bases (get (fin ops) r)) -> In r (rs_subs (get (fin ops) b)) /\ b < r.
+  Proof.
+    intros H r b Hb. destruct (hist_Inv Push ops H) as (_ & R & (_ & S2) & _).
+    split; [apply S2; exact Hb | apply R; exact Hb].
+  Qed.
+
+  Lemma verifying_ro_coherent_after_verify_hist ops r : wf_hist Verifying 0 ops = true ->
+    r < length (fin ops) ->
+    rs_ro (get (verify (fin ops) r) r) = fresh_ro (verify (fin ops) r) r /\
+    fresh_ro (verify (fin ops) r) r = fresh_ro (fin ops) r /\
+    (forall i, rs_reg (get (verify (fin ops) r) i) = rs_reg (get (fin ops) i)).
+  Proof.
+    intros H L. pose proof (hist_Inv Verifying ops H) as V.
+    destruct (verify_ver _ r V L) as (_ & L' & Ro & Rg & B' & _).
+    split; [exact Ro|]. split; [apply fresh_ro_ext; auto | exact Rg].
+  Qed.
+
+  Lemma verifying_snapshot_valid_hist ops r : wf_hist Verifying 0 ops = true -> r < length (fin ops) ->
+    rs_ro (get (fin ops) r) = r :: rs_vro (get (fin ops) r) /\
+    Forall2 le (rs_vgen (get (fin ops) r)) (gens (fin ops) (rs_vro (get (fin ops) r))) /\
+    (gens (fin ops) (rs_vro (get (fin ops) r)) = rs_vgen (get (fin ops) r) ->
+     rs_ro (get (fin ops) r) = fresh_ro (fin ops) r).
+  Proof.
+    intros H L. destruct (hist_Inv Verifying ops H) as (_ & _ & Sn).
+    destruct (Sn r L) as (V1 & _ & V2 & V3). auto.
+  Qed.
+
+  Lemma current_chain_is_reachable_set_hist fl ops r : wf_hist fl 0 ops = true -> r < length (fin ops) ->
+    (exists t, fresh_ro (fin ops) r = r :: t) /\
+    (forall y, In y (fresh_ro (fin ops) r) <-> Reach (Bs (fin ops)) r y).
+  Proof.
+    intros H L. pose proof (hist_Inv fl ops H) as I. pose proof (Inv_ranked fl _ I) as R.
+    split; [apply fresh_ro_head; auto|]. intros y. apply fresh_ro_mem; auto.
+  Qed.
+
+  Lemma lookup_uses_current_chain_hist fl ops r req p n : wf_hist fl 0 ops = true -> r < length (fin ops) ->
+    aget cache_key_eqb (c_cache (rs_caches (get (fin ops) r))) (p, n, ckey_of req) = None ->
+    snd (step W call (fin ops) (QLookup r req p (NStr n))) =
+    enc_res_value (res_of (uncached_lookup W (chain_regs (fin ops) r) req p n)).
+  Proof. intros H L. apply (lookup_current_chain W call fl); auto. apply hist_Inv; auto. Qed.
+
+  Lemma lookupAll_uses_current_chain_hist fl ops r req p : wf_hist fl 0 ops = true -> r < length (fin ops) ->
+    aget mkey_eqb (c_mcache (rs_caches (get (fin ops) r))) (p, req) = None ->
+    snd (step W call (fin ops) (QLookupAll r req p)) =
+    enc_pairs (uncached_lookupAll W (chain_regs (fin ops) r) req p).
+  Proof. intros H L. apply (lookupAll_current_chain W call fl); auto. apply hist_Inv; auto. Qed.
+
+  Lemma subscriptions_uses_current_chain_hist fl ops r req p : wf_hist fl 0 ops = true -> r < length (fin ops) ->
+    aget sckey_eqb (c_scache (rs_caches (get (fin ops) r))) (p, req) = None ->
+    snd (step W call (fin ops) (QSubscriptions r req p)) =
+    map vid (uncached_subscriptions W (chain_regs (fin ops) r) req p).
+  Proof. intros H L. apply (subscriptions_current_chain W call fl); auto. apply hist_Inv; auto. Qed.
+
+  Lemma change_empties_caches_below_hist fl ops o m r : wf_hist fl 0 (ops ++ [o]) = true ->
+    bump_target W (fin ops) o = Some m ->
+    r < length (fin (ops ++ [o])) -> Reach (Bs (fin (ops ++ [o]))) r m ->
+    rs_caches (get (verify (fin (ops ++ [o])) r) r) = empty_caches.
+  Proof.
+    intros H Bt. rewrite final_app.
+    destruct (wf_hist_app fl ops [] o (Inv_nil fl) H) as (I & Wo).
+    apply (cleared_after_change W call fl); auto.
+  Qed.
+
+  Lemma answers_after_change_hist fl ops o m r : wf_hist fl 0 (ops ++ [o]) = true ->
+    bump_target W (fin ops) o = Some m ->
+    r < length (fin (ops ++ [o])) -> Reach (Bs (fin (ops ++ [o]))) r m ->
+    (forall req p n, snd (step W call (fin (ops ++ [o])) (QLookup r req p (NStr n))) =
+                     enc_res_value (res_of (uncached_lookup W (chain_regs (fin (ops ++ [o])) r) req p n))) /\
+    (forall req p, snd (step W call (fin (ops ++ [o])) (QLookupAll r req p)) =
+                   enc_pairs (uncached_lookupAll W (chain_regs (fin (ops ++ [o])) r) req p)) /\
+    (forall req p, snd (step W call (fin (ops ++ [o])) (QSubscriptions r req p)) =
+                   map vid (uncached_subscriptions W (chain_regs (fin (ops ++ [o])) r) req p)).
+  Proof.
+    intros H Bt. rewrite final_app.
+    destruct (wf_hist_app fl ops [] o (Inv_nil fl) H) as (I & Wo).
+    apply (answers_after_change W call fl); auto.
+  Qed.
+
+  (* push flavour: the caches are already empty in the state itself (no lookup needed) *)
+  Lemma push_change_empties_caches_hist ops o m r : wf_hist Push 0 (ops ++ [o]) = true ->
+    bump_target W (fin ops) o = Some m -> r < length (fin (ops ++ [o])) ->
+    Reach (Bs (fin (ops ++ [o]))) r m -> rs_caches (get (fin (ops ++ [o])) r) = empty_caches.
+  Proof.
+    intros H Bt L Rr. pose proof (change_empties_caches_below_hist Push ops o m r H Bt L Rr) as E.
+    rewrite verify_push in E; auto. apply (hist_Inv Push _ H).
+  Qed.
+
+  (* verifying flavour: _verify empties the cache whenever a generation of the snapshot differs *)
+  Lemma verifying_verify_empties_hist ops r : wf_hist Verifying 0 ops = true -> r < length (fin ops) ->
+    gens (fin ops) (rs_vro (get (fin ops) r)) <> rs_vgen (get (fin ops) r) ->
+    rs_caches (get (verify (fin ops) r) r) = empty_caches.
+  Proof.
+    intros H L. destruct (verify_ver _ r (hist_Inv Verifying ops H) L) as (_ & _ & _ & _ & _ & _ & Ne & _). exact Ne.
+  Qed.
+End Hist.
